@@ -1,6 +1,7 @@
 package main
 
 import (
+	"strconv"
 	"go/token"
 	"go/types"
 	"strings"
@@ -186,6 +187,18 @@ func checkC08(c *Check) {
 		own := strings.Contains(s, "Attributes: handler.ProviderKeeper.Get(p:ms.keepers.Provider, types.UnwrapSDKContext(p:goCtx), "+prov+")#0.Attributes") && strings.Contains(s, "Owner: *p:msg.Provider")
 		aud := strings.Contains(s, "handler.AuditKeeper.GetProviderAttributes(p:ms.keepers.Audit, types.UnwrapSDKContext(p:goCtx), "+prov+")#0")
 		shape := strings.HasPrefix(s, "builtin.append([types.Provider{") && strings.Count(s, "types.Provider{") == 1
+		if !strings.HasPrefix(s, "builtin.append(") {
+			// the list is not the append form: read its content from how it is filled (make + indexed stores)
+			parts, known := sliceParts(call.Common().Args[1])
+			if !known {
+				c.Info("R2", "matcher input: construction of the provider list not recognised, content not decided", call.Pos(), "the list handed to MatchRequirements is built as "+short(s))
+				continue
+			}
+			own = len(parts) > 0 && strings.Contains(parts[0], "Attributes: handler.ProviderKeeper.Get(p:ms.keepers.Provider, types.UnwrapSDKContext(p:goCtx), "+prov+")#0.Attributes") && strings.Contains(parts[0], "Owner: *p:msg.Provider")
+			aud = len(parts) == 2 && parts[1] == "rest:handler.AuditKeeper.GetProviderAttributes(p:ms.keepers.Audit, types.UnwrapSDKContext(p:goCtx), "+prov+")#0"
+			shape = true
+			s = strings.Join(parts, " ++ ")
+		}
 		c.Ob("R2", "matcher input starts with the bidder's own provider record", call.Pos(), own && shape, short(s))
 		c.Ob("R2", "matcher input continues only with the audited attributes of the same address", call.Pos(), aud && shape, short(s))
 	}
@@ -706,4 +719,65 @@ func (c *Check) elementRelation() {
 		}
 	}
 	c.Ob("R2", "attribute match: positive only for equal key and equal value", ef.Pos(), okEl && nt > 0, "Attribute.SubsetOf answers true without key and value both being equal")
+}
+
+// sliceParts: the content of a slice built with make and filled by index, as a list of element expressions followed by
+// "rest:<slice>" for a loop that copies another slice behind them. ok only if every store into the slice is understood
+// and the length is len(rest)+number of leading elements.
+func sliceParts(v ssa.Value) ([]string, bool) {
+	mk, ok := v.(*ssa.MakeSlice)
+	if !ok {
+		return nil, false
+	}
+	elems := map[int]string{}
+	rest := ""
+	for _, r := range *mk.Referrers() {
+		ia, ok := r.(*ssa.IndexAddr)
+		if !ok {
+			continue
+		}
+		for _, rr := range *ia.Referrers() {
+			st, ok := rr.(*ssa.Store)
+			if !ok || st.Addr != ssa.Value(ia) {
+				return nil, false // element address escapes
+			}
+			if k, isC := ia.Index.(*ssa.Const); isC {
+				if _, dup := elems[int(k.Int64())]; dup {
+					return nil, false
+				}
+				elems[int(k.Int64())] = Sym(st.Val)
+				continue
+			}
+			// copy loop: dst[i+k] = src[i]
+			ld, ok := st.Val.(*ssa.UnOp)
+			if !ok {
+				return nil, false
+			}
+			src, ok := ld.X.(*ssa.IndexAddr)
+			if !ok || loopHeaderOf(st.Block()) == nil {
+				return nil, false
+			}
+			if rest != "" && rest != Sym(src.X) {
+				return nil, false
+			}
+			rest = Sym(src.X)
+		}
+	}
+	var parts []string
+	for k := 0; k < len(elems); k++ {
+		e, ok := elems[k]
+		if !ok {
+			return nil, false
+		}
+		parts = append(parts, e)
+	}
+	want := strconv.Itoa(len(elems))
+	if rest != "" {
+		want = "(builtin.len(" + rest + ") + " + want + ")"
+		parts = append(parts, "rest:"+rest)
+	}
+	if Sym(mk.Len) != want {
+		return nil, false
+	}
+	return parts, true
 }
